@@ -48,7 +48,8 @@ COMPONENTS_STUB = ["np.random.Generator.permutation -> SimGenerator where a sche
 EXPECTED_PROBES = ["partial_last_batch", "batch_larger_than_set", "grid_invert_branch",
                    "grid_truncated_to_n_val", "random_split", "n_val_rounds_to_zero", "reset_reseeded",
                    "workload_A", "workload_B", "workload_C", "ratio_out_of_range", "train_empty",
-                   "negative_control_differs", "val_split_in_loop", "reset_after_continue"]
+                   "negative_control_differs", "val_split_in_loop", "reset_after_continue",
+                   "seed_given_as_generator"]
 
 _ctx = {}
 
@@ -79,8 +80,11 @@ def setup():
         def step_optimizers(self):
             if self.taps is None:
                 return super().step_optimizers()
-            self.taps["g_obj"].append(self.obj_model._obj.grad.detach().clone())
-            self.taps["g_probe"].append(self.probe_model._probe.grad.detach().clone())
+            import torch as _t
+
+            go, gp = self.obj_model._obj.grad, self.probe_model._probe.grad
+            self.taps["g_obj"].append(go.detach().clone() if go is not None else _t.zeros(1))
+            self.taps["g_probe"].append(gp.detach().clone() if gp is not None else _t.zeros(1))
 
     _ctx.update(m=m, SimpleBatcher=SimpleBatcher, generate_batches=generate_batches,
                 subdivide_batches=subdivide_batches, Tap=TapPtychography)
@@ -119,7 +123,10 @@ def gen(rng: Rng, tier, i):
                 "obj_type": rng.pick(["complex", "pure_phase", "potential"]),
                 "modes": rng.pick([1, 1, 2]), "slices": rng.pick([1, 1, 2]),
                 "kinds": [rng.pick(simsched.PERM_KINDS) for _ in range(3)],
-                "split_seed": rng.randrange(10 ** 6)}
+                "split_seed": rng.randrange(10 ** 6),
+                "keys": rng.pick([["object", "probe"], ["object", "probe"], ["object"], ["probe"],
+                                  ["object", "probe", "dataset"]]),
+                "tv": rng.pick([0.0, 0.0, 1e-3])}
     return {"w": "C", "data_seed": rng.randrange(1000), "scan": rng.pick([[6, 6], [5, 7]]),
             "seed": rng.randrange(10 ** 6), "b": rng.pick([5, 7, 10, 16, 35, 1, 36, 40]),
             "ratio": rng.pick([0.0, 0.2, 0.25, 0.5]), "mode": rng.pick(["grid", "random"]),
@@ -128,7 +135,9 @@ def gen(rng: Rng, tier, i):
             # call history on one instance: R = reconstruct(reset=True), C = continue (reset=False),
             # N = first call on a fresh instance without reset
             "seq": rng.pick([["R", "R"], ["R", "C", "R"], ["N", "R"], ["N", "C", "R"], ["R", "C", "C", "R"],
-                             ["R", "R", "C", "R"]])}
+                             ["R", "R", "C", "R"], ["R", "R", "R"]]),
+            "seed_as": rng.pick(["int", "int", "generator"]), "modes": rng.pick([1, 1, 2]),
+            "global_rng": rng.randrange(10 ** 6)}
 
 
 # ------------------------------------------------------------------------------------------
@@ -254,7 +263,10 @@ def _run_B(plan, res, viol):
     bump(res["probes"], "workload_B")
     pt = _build(plan, ratio=plan["ratio"], mode=plan["mode"], obj_type=plan["obj_type"],
                 n_modes=plan["modes"], num_slices=plan["slices"])
-    pt.reconstruct(num_iters=0, reset=True, optimizer_params=_opt("sgd"), batch_size=None)
+    keys = plan.get("keys", ["object", "probe"])
+    cons = {"object": {"tv_weight_xy": plan["tv"]}} if plan.get("tv") else {}
+    pt.reconstruct(num_iters=0, reset=True, batch_size=None, constraints=cons,
+                   optimizer_params={k_: {"type": "sgd", "lr": 1e-3} for k_ in keys})
     ref = None
     sizes = {}
     # the training-set size is only known once a batcher exists: probe it with a full-batch call
@@ -306,13 +318,21 @@ def _run_B(plan, res, viol):
             viol("loss_not_batch_invariant", f"loss={plan['loss']} b={b}: mean of per-batch losses "
                  f"{rec['loss']:.8g} vs full-batch {full['loss']:.8g} (rel {dl:.2e})",
                  f"loss_not_batch_invariant:{plan['loss']}")
-        dg, dp = _rel(rec["g_obj"], full["g_obj"]), _rel(rec["g_probe"], full["g_probe"])
+        # only models that are being optimised have their gradients zeroed per batch
+        dg = _rel(rec["g_obj"], full["g_obj"]) if "object" in keys else 0.0
+        dp = _rel(rec["g_probe"], full["g_probe"]) if "probe" in keys else 0.0
         if dg > 1e-4 or dp > 1e-4:
             viol("grad_not_batch_invariant", f"loss={plan['loss']} b={b}: mean per-batch gradient vs "
                  f"full-batch gradient rel. dev obj {dg:.2e} probe {dp:.2e}",
                  f"grad_not_batch_invariant:{plan['loss']}")
+        # the reported iteration loss (data term + soft constraints) must not depend on the batch size
+        dr = abs(rec["iter_loss"] - full["iter_loss"]) / (abs(full["iter_loss"]) + 1e-30)
+        if dr > 1e-4:
+            viol("reported_loss_not_batch_invariant", f"b={b}: reported iteration loss "
+                 f"{rec['iter_loss']:.8g} vs full-batch {full['iter_loss']:.8g} (tv={plan.get('tv')})",
+                 "reported_loss_not_batch_invariant")
         di = abs(rec["iter_loss"] - rec["loss"]) / (abs(rec["loss"]) + 1e-30)
-        if di > 1e-5:
+        if di > 1e-5 and not plan.get("tv"):
             viol("reported_loss_not_mean", f"b={b}: reported iteration loss {rec['iter_loss']:.8g} "
                  f"vs mean of batch losses {rec['loss']:.8g}", "reported_loss_not_mean")
         res["sched"].append(f"B:{plan['kinds'][0]}:{T}:{b}:{plan['mode']}")
@@ -355,9 +375,19 @@ def _run_C(plan, res, viol):
     kw = dict(num_iters=plan["iters"], optimizer_params=opt, batch_size=plan["b"])
 
     def fresh(seed):
-        pt = _build(plan, rng=seed, ratio=plan["ratio"], mode=plan["mode"])
+        import torch
+
+        # nothing may depend on the process-global generators: scramble them differently each time
+        scramble[0] += 1
+        np.random.seed((plan.get("global_rng", 0) + 7919 * scramble[0]) % (2 ** 32))
+        torch.manual_seed(plan.get("global_rng", 0) + 104729 * scramble[0])
+        pt = _build(plan, rng=seed, ratio=plan["ratio"], mode=plan["mode"], n_modes=plan.get("modes", 1))
+        if plan.get("seed_as") == "generator":
+            pt.rng = np.random.default_rng(seed)   # the seed given as a Generator object
         log = _record_batches(pt)
         return pt, log
+
+    scramble = [0]
 
     def run(pt, log):
         del log[:]
@@ -368,6 +398,8 @@ def _run_C(plan, res, viol):
     def same_seq(a, b):
         return len(a) == len(b) and all(np.array_equal(x, y) for x, y in zip(a, b))
 
+    if plan.get("seed_as") == "generator":
+        bump(res["probes"], "seed_given_as_generator")
     try:
         p1, l1 = fresh(plan["seed"])
         L1, V1, S1 = run(p1, l1)
